@@ -152,6 +152,25 @@ QConn == {NoQual, Q(NULL, NULL, TRUE), Q(Some(D1), NULL, FALSE), Q(NULL, Some(D1
    of one account, a commodity, a price *)
 ConnAlpha == [n \in 1..6 |-> SmallAlpha[<<1, 2, 4, 6, 7, 9>>[n]]]
 
+(* ---- accounts opened / closed and currencies declared by SEVERAL directives ---- *)
+(* a transaction posting HOOL to Assets:A (and USD to Expenses:F), three open directives of Assets:A (the second one
+   dated before the first, the third one on the first one's date), two close directives (the second dated before the
+   first), three commodity directives of HOOL whose dates and metadata differ (keys on the first only, on the later
+   only, on both with different values), one of USD *)
+DupDirectives == <<
+    Open(D1, M0(600) \o <<K1s, BothT>>, AcA, <<>>, NULL),
+    Open(D0, M0(601) \o <<K2T, <<"both", MVs("earlier-open")>> >>, AcA, <<"USD">>, Some("FIFO")),
+    Open(D1, M0(602) \o <<KCamel>>, AcA, <<>>, NULL),
+    Close(D2, M0(603), AcA),
+    Close(D1 + 1, M0(604) \o <<K1s>>, AcA),
+    Commodity(D0, M0(605) \o <<K1s, K2T, KCamel>>, "HOOL"),
+    Commodity(D1, M0(606) \o << <<"k1", MVs("superseding")>>, KTwin, BothT >>, "HOOL"),
+    Commodity(D0, M0(607), "HOOL"),
+    Commodity(D0, M0(608) \o <<K1s>>, "USD") >>
+DupAlpha == << FocusTxn(17) >> \o DupDirectives
+(* the generator's: two transactions (posting with / without metadata dictionary), the same directives *)
+DupGenAlpha == << FocusTxn(17), FocusTxn(2) >> \o DupDirectives
+
 GenAlpha == [v \in 1..60 |-> FocusTxn(v - 1)] \o [v \in 1..18 |-> AttrTxn(v - 1)] \o ShapeTxns \o OtherDirectives
 GenKeys == <<"filename", "lineno", "k1", "k2", "both", "kd", "kx", "kb", "ka", "nokey",
              "isinCode", "isincode", "bOth", "tax-Id_2", "ISINCODE">>
